@@ -1,29 +1,53 @@
-//! throw-away measurement: how many tape words do the generators consume?
-use vcore::Tape;
-use vmodel::argv::{gen_argv_broad, gen_argv_hybrid};
-use vmodel::gen::{gen_broad, GenOpts};
-fn main() {
-    let mut x: u64 = 0x9E3779B97F4A7C15;
-    let mut next = || {
-        x ^= x << 13;
-        x ^= x >> 7;
-        x ^= x << 17;
-        (x >> 16) as u32
-    };
-    let mut spec_used = Vec::new();
-    let mut argv_used = Vec::new();
-    for i in 0..20000 {
-        let words: Vec<u32> = (0..4000).map(|_| next()).collect();
-        let mut t = Tape::new(&words);
-        let spec = gen_broad(&mut t, &GenOpts::default());
-        let a = t.used();
-        let _ = if i % 2 == 0 { gen_argv_broad(&mut t, &spec) } else { gen_argv_hybrid(&mut t, &spec) };
-        spec_used.push(a);
-        argv_used.push(t.used() - a);
+//! throw-away probe: positional value_terminator semantics
+use clap::{Arg, ArgAction, Command};
+fn show(cmd: &Command, argv: &[&str]) {
+    let r = cmd.clone().try_get_matches_from(argv.iter().copied());
+    match r {
+        Ok(m) => {
+            let mut out = String::new();
+            for id in m.ids() {
+                let id = id.as_str();
+                let vals: Vec<Vec<String>> = m
+                    .get_raw_occurrences(id)
+                    .map(|o| o.map(|g| g.map(|v| v.to_string_lossy().into_owned()).collect()).collect())
+                    .unwrap_or_default();
+                let idx: Vec<usize> = m.indices_of(id).map(|i| i.collect()).unwrap_or_default();
+                out.push_str(&format!(" {id}={vals:?}@{idx:?}"));
+            }
+            println!("{argv:?} -> Ok{out}");
+        }
+        Err(e) => println!("{argv:?} -> Err {:?} {}", e.kind(), e.to_string().lines().next().unwrap_or("")),
     }
-    spec_used.sort();
-    argv_used.sort();
-    let q = |v: &Vec<usize>, p: f64| v[((v.len() - 1) as f64 * p) as usize];
-    println!("spec words: p10={} p50={} p90={} p99={} max={}", q(&spec_used, 0.1), q(&spec_used, 0.5), q(&spec_used, 0.9), q(&spec_used, 0.99), q(&spec_used, 1.0));
-    println!("argv words: p10={} p50={} p90={} p99={} max={}", q(&argv_used, 0.1), q(&argv_used, 0.5), q(&argv_used, 0.9), q(&argv_used, 0.99), q(&argv_used, 1.0));
+}
+fn main() {
+    let a = Command::new("p")
+        .arg(Arg::new("v").short('v').action(ArgAction::SetTrue))
+        .arg(Arg::new("one").required(true))
+        .arg(Arg::new("m").num_args(1..).value_terminator(";").required(true))
+        .arg(Arg::new("t").required(true));
+    for l in [
+        vec!["p", "x", "a", "b", ";", "d"],
+        vec!["p", "x", "a", "b", "-v", ";", "d"],
+        vec!["p", "x", "a", "b", "c"],
+        vec!["p", "x", "a", "b", ";"],
+        vec!["p", "x", "a", "-v", "b", ";", "d"],
+        vec!["p", "x", ";", "d"],
+        vec!["p", "x", "a", ";", "d", "e"],
+    ] {
+        show(&a, &l);
+    }
+    let b = Command::new("p")
+        .arg(Arg::new("v").short('v').action(ArgAction::SetTrue))
+        .arg(Arg::new("m").num_args(1..).value_terminator(";"))
+        .arg(Arg::new("l").num_args(1..).last(true));
+    for l in [
+        vec!["p", "a", "b", "--", "t1", "t2"],
+        vec!["p", "a", "b", ";", "--", "t1"],
+        vec!["p", "--", "t1", "t2"],
+        vec!["p", "a", "--", ";", "t"],
+        vec!["p", "a", "-v", "--", "t"],
+        vec!["p", "a", ";", "t"],
+    ] {
+        show(&b, &l);
+    }
 }
